@@ -264,6 +264,9 @@ enum Unit {
     /// root-only programs in which the op's operands are used again afterwards
     Reuse(B),
     Transform,
+    /// outer(inner(x, y | const), y | const) for EVERY pair of opcodes (all 30,
+    /// not only the DAG alphabet): local chain rule + Context::deriv
+    AllOps(usize),
 }
 
 fn dag_spec() -> DagSpec {
@@ -302,6 +305,9 @@ fn units(tier: Tier) -> Vec<Unit> {
         v.push(Unit::Fan { w });
     }
     v.push(Unit::Huge);
+    for i in 0..(refsem::UNARY.len() + refsem::BINARY.len()) {
+        v.push(Unit::AllOps(i));
+    }
     for b in [B::Add, B::Sub, B::Mul, B::Div, B::Atan, B::Min, B::Max, B::Mod, B::And, B::Or, B::Compare] {
         v.push(Unit::Reuse(b));
     }
@@ -826,7 +832,7 @@ impl Check for C05 {
     }
     fn meta(&self, tier: Tier) -> Meta {
         Meta {
-            rule: "case = one grad-slice call; (a) every opcode x operand form {reg, reg/reg, same-reg, reg/imm, imm/reg} x operand values from a 20-value finite alphabet (squared for binary ops) x seed gradients {e_x,e_y,e_z,(2,-3,0.5),0,(1,1,1)} per operand, cut into slices of lengths 1..=9, VM and JIT; (b) fan families of width 1..16 (thorough 24) keeping w gradients live across atan2 / mod / sin / exp call-outs, and one huge program with 300 simultaneously live gradients; for 11 binary opcodes 11 ROOT-ONLY programs each in which the op's operands are used again afterwards (register-sharing patterns), gradient of the root vs the f64 dual-number derivative of the whole program on a 36-point grid; every DAG up to the node bound over 20 differentiable ops with all nodes exported: local chain-rule obligation at every node (reference dual applied to the evaluator's own operand gradients) on a 36-point grid; (c) Context::deriv of the last node w.r.t. X and Y evaluated with ref32 vs the f64 dual-number derivative of the graph; (d) Shape grad evaluation with 7 matrices incl. projective; oracle: f64 forward-mode duals with a cancellation-aware tolerance 1e-4*max(1,|ref|,sum|terms|); value must equal the float-slice evaluator's; points within 1e-3 of an op's non-differentiable locus are skipped (counted); non-trivial = a derivative was actually compared".into(),
+            rule: "case = one grad-slice call; (a) every opcode x operand form {reg, reg/reg, same-reg, reg/imm, imm/reg} x operand values from a 20-value finite alphabet (squared for binary ops) x seed gradients {e_x,e_y,e_z,(2,-3,0.5),0,(1,1,1)} per operand, cut into slices of lengths 1..=9, VM and JIT; (b) fan families of width 1..16 (thorough 24) keeping w gradients live across atan2 / mod / sin / exp call-outs, and one huge program with 300 simultaneously live gradients; for 11 binary opcodes 11 ROOT-ONLY programs each in which the op's operands are used again afterwards (register-sharing patterns), gradient of the root vs the f64 dual-number derivative of the whole program on a 36-point grid; every DAG up to the node bound over 20 differentiable ops with all nodes exported: local chain-rule obligation at every node (reference dual applied to the evaluator's own operand gradients) on a 36-point grid; (b') outer(inner(x, y|const|x), y|const|same) for EVERY ordered pair of the 30 opcodes, same obligations; (c) Context::deriv of the last node w.r.t. X and Y evaluated with ref32 vs the f64 dual-number derivative of the graph; (d) Shape grad evaluation with 7 matrices incl. projective; oracle: f64 forward-mode duals with a cancellation-aware tolerance 1e-4*max(1,|ref|,sum|terms|); value must equal the float-slice evaluator's; points within 1e-3 of an op's non-differentiable locus are skipped (counted); non-trivial = a derivative was actually compared".into(),
             bounds: match tier {
                 Tier::Quick => "DAG nodes <= 2".into(),
                 Tier::Thorough => "DAG nodes <= 3".into(),
@@ -923,6 +929,59 @@ impl Check for C05 {
                             }
                             cx.add("cases", 1);
                             let p = family_fan(w, mid, order, comb);
+                            dag_prog::<VmFunction>(cx, &p, &pts);
+                            dag_prog::<JitFunction>(cx, &p, &pts);
+                        }
+                    }
+                }
+            }
+            Unit::AllOps(outer) => {
+                let g = [-2.25f32, -0.8, 0.3, 0.75, 1.6, 3.1];
+                let pts: Vec<Vec<f32>> = g.iter().flat_map(|a| g.iter().map(move |b| vec![*a, *b])).collect();
+                let any = |i: usize| -> Result<U, B> {
+                    if i < refsem::UNARY.len() { Ok(refsem::UNARY[i]) } else { Err(refsem::BINARY[i - refsem::UNARY.len()]) }
+                };
+                let nops = refsem::UNARY.len() + refsem::BINARY.len();
+                // operand choices for the free operand of a binary op: y, a constant, x
+                for inner in 0..nops {
+                    for iform in 0..3usize {
+                        for oform in 0..4usize {
+                            let mut p = Prog::default();
+                            let x = p.push(POp::Var(0));
+                            let y = p.push(POp::Var(1));
+                            let k = p.push(POp::Const(0.625));
+                            let other = [y, k, x];
+                            let i = match any(inner) {
+                                Ok(u) => {
+                                    if iform > 0 {
+                                        continue;
+                                    }
+                                    p.push(POp::Un(u, x))
+                                }
+                                Err(b) => p.push(POp::Bin(b, x, other[iform])),
+                            };
+                            let r = match any(outer) {
+                                Ok(u) => {
+                                    if oform > 0 {
+                                        continue;
+                                    }
+                                    p.push(POp::Un(u, i))
+                                }
+                                Err(b) => match oform {
+                                    0 => p.push(POp::Bin(b, i, y)),
+                                    1 => p.push(POp::Bin(b, k, i)),
+                                    2 => p.push(POp::Bin(b, y, i)),
+                                    _ => p.push(POp::Bin(b, i, i)),
+                                },
+                            };
+                            p.roots = vec![r];
+                            let s = sub;
+                            sub += 1;
+                            if !cx.case(s) {
+                                continue;
+                            }
+                            cx.add("cases", 1);
+                            cx.add("all_opcode_pair_programs", 1);
                             dag_prog::<VmFunction>(cx, &p, &pts);
                             dag_prog::<JitFunction>(cx, &p, &pts);
                         }
